@@ -304,9 +304,11 @@ typedef struct { int id; uint64_t seed; long iters; int purger; } sarg_t;
 
 static void s_report(const char* what, int id, size_t idx, size_t count, int other) {
   if (atomic_fetch_add(&s_reported, 1) < 5) {
+    flockfile(stdout);   // several threads may report at once: one record per line
     printf("T FAIL stress %s: thread %d range [%llu,%llu) other owner %d bitmap:", what, id, U(idx), U(idx + count), other);
     for (size_t i = 0; i < SF; i++) printf(" %llu", U(mi_atomic_load_relaxed(&s_bm[i])));
     printf("\n");
+    funlockfile(stdout);
   }
 }
 static void s_stamp(int id, size_t idx, size_t count) {
@@ -569,11 +571,11 @@ int main(int argc, char** argv) {
     printf("F mask %llu %llu = %llu\n", U(c), U(b), U(mi_bitmap_mask_(c, b)));
   }
   // 2. every sequential function on random bitmaps
-  int ncases = thorough ? 40000 : 4000;
+  int ncases = thorough ? 40000 : 6000;
   for (int i = 0; i < ncases; i++) one_case(&g, i);
   // 3. multi-threaded stress on the raw functions
   {
-    long iters = thorough ? 600000 : 120000;
+    long iters = thorough ? 3000000 : 600000;
     stress(seed, 4, iters, 0);
     stress(seed + 1, 8, iters, 24);
     stress(seed + 2, 12, iters / 2, 58);
